@@ -126,6 +126,23 @@ def keyfn(kf):
     raise ValueError(kf)
 
 
+def sortfn(sfn):
+    """The sort_fn twin of specs/Values.tla IntLessBy / StrLessBy."""
+    if sfn == 'std':
+        return sorted
+    import functools
+
+    def m3(seq, reverse=False):
+        def cmp(p, q):
+            if isinstance(p, str):                     # example keys: descending
+                return (q > p) - (q < p)
+            (v, i), (w, j) = p, q                      # pairs (sort value, position)
+            a, b = (v % 3, v, i), (w % 3, w, j)
+            return (a > b) - (a < b)
+        return sorted(seq, key=functools.cmp_to_key(cmp), reverse=reverse)
+    return m3
+
+
 def group_key(kf, sel):
     """The Python group id that stands for the integer id `sel` of the spec."""
     if kf == 'fs2':
